@@ -44,14 +44,24 @@
 #  endif
 #endif
 
-static void __attribute__((noinline)) dirty_stack(uint8_t pat) {
+static void __attribute__((noinline)) dirty_stack_n(uint8_t pat, size_t n) {
 #ifndef C02_MSAN
-	volatile uint8_t junk[C02_STACK_DIRTY];
-	memset((void *)junk, pat, sizeof(junk));
+	volatile uint8_t *junk = __builtin_alloca(n);
+	memset((void *)junk, pat, n);
 	__asm__ volatile("" :: "r"(junk) : "memory");
 #else
-	(void)pat;
+	(void)pat; (void)n;
 #endif
+}
+/* Full depth on every 8th case and on every curve load; 16 KiB otherwise: in between, the deep
+ * part of the stack keeps the (valid looking) leftovers of the previous call, which is the other
+ * interesting stale state for a table that is not completely initialised. */
+static unsigned long g_case_no = 0;
+static void dirty_stack(uint8_t pat, int force_full) {
+	if (force_full || 0 == (g_case_no % 8))
+		dirty_stack_n(pat, C02_STACK_DIRTY);
+	else
+		dirty_stack_n(pat, 16 * 1024);
 }
 
 static void *junk_alloc(size_t n, uint8_t pat) {
@@ -104,7 +114,7 @@ static int load_curve(vin_t *in, uint8_t junk) {
 	free(g_ckey); g_ckey = key; g_ckey_len = klen;
 	free(g_curve);
 	g_curve = junk_alloc(sizeof(ec_curve_t), junk);
-	dirty_stack(junk);
+	dirty_stack(junk, 1);
 	if (0 == kind) {
 		if (idx >= nitems(ec_curve_str)) { g_curve_rc = -2; return 0; }
 		g_curve_rc = ecdsa_curve_from_str(&ec_curve_str[idx], g_curve);
@@ -239,7 +249,8 @@ int main(void) {
 		if (0 == rc_prep) rc_prep = make_bn(&k2, k2b, k2l, bits, junk);
 		vout_i32(&out, rc_prep);
 		if (0 == rc_prep) {
-			dirty_stack((uint8_t)(junk ^ 0x5a));
+			g_case_no++;
+			dirty_stack((uint8_t)(junk ^ 0x5a), 0);
 			switch (op) {
 			case 1: rc = ec_point_add(A, alias ? A : B, g_curve); res = A; break;
 			case 2: rc = ec_point_sub(A, alias ? A : B, g_curve); res = A; break;
